@@ -204,7 +204,7 @@ def stream_sample1(ctx, built, ntables, max_rows=100, name="S-sample1"):
                    "harvest, analyze_tree (safe strings) and generate_microdata from the normalised table and the fitted convertors alone; compared: "
                    "every generated cell (value and float), the number of RNG draws; non-trivial = >= 2 rows with >= 1 non-singular range, distinct by input")
     for ti in range(ntables):
-        t = gen_typed_table(R, max_rows=max_rows, ncols=R.choice([1, 2, 2, 3, 3, 4]))
+        t = gen_typed_table(R, max_rows=max_rows, ncols=R.choice([1, 2, 2, 3, 3, 4]), min_rows=R.choice([1, 20, 60]), params=R.choice(["random", "default", "default"]))
         try:
             convs, data, F, kind, ft = prepare(t)
             syn = Synthesizer(t["df"], pids=t["pids"], anonymization_params=t["ap"], bucketization_params=t["bp"], clustering=SingleClustering())
@@ -278,7 +278,7 @@ def stream_sampleN(ctx, built, ntables, max_rows=80, name="S-sampleN"):
                    "distinct by input and strategy")
     own = {"LEFT": "L", "RIGHT": "R", "SHARED": "S"}
     for ti in range(ntables):
-        t = gen_typed_table(R, max_rows=max_rows, ncols=R.choice([3, 4, 5, 5, 6]))
+        t = gen_typed_table(R, max_rows=max_rows, ncols=R.choice([3, 4, 5, 5, 6]), min_rows=R.choice([1, 20, 60]), params=R.choice(["random", "default", "default"]))
         strat = R.choice([NoClustering, DefaultClustering, DefaultClustering, DefaultClustering, SingleClustering])
         # a small weight budget makes the default strategy split into several stitched clusters even for few columns
         mk = (lambda: DefaultClustering(max_weight=R.choice([1.5, 2.0, 2.0, 3.0, 15.0]))) if strat is DefaultClustering else strat
@@ -359,7 +359,7 @@ def stream_sampleD(ctx, built, ntables, max_rows=80, name="S-sampleD"):
             return super().build_clusters(forest)
 
     for ti in range(ntables):
-        t = gen_typed_table(R, max_rows=max_rows, ncols=R.choice([3, 4, 5, 5, 6, 6]))
+        t = gen_typed_table(R, max_rows=max_rows, ncols=R.choice([3, 4, 5, 5, 6, 6]), min_rows=R.choice([1, 20, 60]), params=R.choice(["random", "default", "default"]))
         ncols = len(t["df"].columns)
         mainc = R.choice([None, None, R.randrange(ncols)])
         mw = R.choice([1.5, 2.0, 3.0, 15.0]); mt = R.choice([0.1, 0.1, 0.3]); alpha = R.choice([1e-2, 1e-2, 0.05])
